@@ -1679,3 +1679,95 @@ func ruleGuardSubject(c *Ctx) {
 		}
 	})
 }
+
+// ruleStaleAfterEdit (R-STALE-READ, package mdiff): two order faults of straight-line code.
+//  (a) a field is set to nil and then read, in the same block, into something that is kept (`rd.chunks = nil; out =
+//      append(out, &Patch{Chunks: rd.chunks})`): the value kept is nil — the read belongs before the reset;
+//  (b) a pointer to the first / last element of a chunk's edit list is taken and, later in the same block, that
+//      element is dropped from the list while the pointer lives on: it points at the edit that is gone.
+func ruleStaleAfterEdit(c *Ctx) {
+	c.rule("R-STALE-READ", 0, "in package mdiff no field is read into a kept value right after it was reset in the same block, and no pointer to an end of an edit list outlives the drop of that end")
+	for _, fn := range c.P.PkgFuncs("mdiff") {
+		fn := fn
+		n := 0
+		for _, b := range fn.Blocks {
+			cleared := map[string]ssa.Instruction{}
+			type ptr struct {
+				call *ssa.Call
+				list string
+				k    int64
+			}
+			var ptrs []ptr
+			for _, in := range b.Instrs {
+				switch x := in.(type) {
+				case *ssa.Store:
+					fa, ok := x.Addr.(*ssa.FieldAddr)
+					if !ok {
+						continue
+					}
+					key := sym(fa)
+					if isNilConst(x.Val) {
+						cleared[key] = in
+					} else {
+						delete(cleared, key)
+					}
+					// a drop of the first / last element of a list
+					if sl, ok := x.Val.(*ssa.Slice); ok {
+						if ld, ok := sl.X.(*ssa.UnOp); ok && ld.Op == token.MUL && sym(ld.X) == key {
+							first := sl.High == nil && isConstInt(sl.Low, 1)
+							last := sl.Low == nil && sl.High != nil
+							for _, p := range ptrs {
+								if p.list != key || !((first && p.k == 0) || (last && p.k == -1)) {
+									continue
+								}
+								live := false
+								for _, r := range referrersOf(p.call) {
+									if ri, ok := r.(ssa.Instruction); ok && (ri.Block() != b || nodeOf(ri).i > nodeOf(in).i) {
+										live = true
+									}
+								}
+								if live {
+									n++
+									c.sawFn(fnName(fn))
+									c.bad("R-STALE-READ", fmt.Sprintf("%s:pointer outlives the drop #%d", fnName(fn), n), p.call.Pos(), "a pointer to an end of the edit list is taken and THEN that end is dropped from the list; the pointer is used afterwards: it refers to the edit that is no longer part of the chunk (the new end was meant)")
+								}
+							}
+						}
+					}
+				case *ssa.UnOp:
+					if x.Op != token.MUL {
+						continue
+					}
+					fa, ok := x.X.(*ssa.FieldAddr)
+					if !ok {
+						continue
+					}
+					if st, ok := cleared[sym(fa)]; ok {
+						kept := false
+						for _, r := range referrersOf(x) {
+							switch r.(type) {
+							case *ssa.Store, *ssa.MakeInterface, *ssa.Return:
+								kept = true
+							case *ssa.Call:
+								kept = true
+							}
+						}
+						if kept {
+							n++
+							c.sawFn(fnName(fn))
+							c.bad("R-STALE-READ", fmt.Sprintf("%s:read after reset #%d", fnName(fn), n), x.Pos(), fmt.Sprintf("%s is set to nil at %s and read right after it into a value that is kept: what is kept is nil — the read belongs before the reset", ksym(fa), c.P.pos(instrPos(st))))
+						}
+					}
+				case *ssa.Call:
+					if cal := x.Call.StaticCallee(); cal != nil && origin(cal).Name() == "PtrAt" && len(x.Call.Args) == 2 {
+						if k, ok := constInt(x.Call.Args[1]); ok {
+							if a, ok := loadAddr(x.Call.Args[0]); ok {
+								ptrs = append(ptrs, ptr{x, sym(a), k})
+							}
+						}
+					}
+				}
+			}
+		}
+	}
+}
